@@ -11,10 +11,14 @@ class Stream:
     shrink(line)->iterable of smaller candidate lines; tag(line, out)->str for
     the branch histogram; known(line, why)->None|str (known finding id)"""
     def __init__(self, name, lines, impl, oracle=None, nontrivial=None, shrink=None, tag=None,
-                 model=True):
+                 model=True, batch_oracle=None, canon=None):
         self.name, self.lines, self.impl = name, lines, impl
         self.oracle, self.nontrivial, self.shrink, self.tag = oracle, nontrivial, shrink, tag
         self.model = model
+        self.batch_oracle = batch_oracle   # (lines, impl_outs) -> [why|None]; used to batch verified-checker calls
+        self.canon = canon                 # canonicalise the model's reply before diffing (strip model-only meta data)
+        if batch_oracle and not oracle:
+            self.oracle = lambda l, io: batch_oracle([l], [io])[0]
 
 def _shrink(stream, line, still_bad, budget=300):
     if not stream.shrink:
@@ -51,6 +55,9 @@ def run_streams(res: Result, streams: list[Stream], broken, known_match=None, ma
                 model_out = run_model(st.lines)
             except Exception as e:  # driver crashed: treat as broken correspondence
                 broken = broken + [(f"model driver failed on stream {st.name}", str(e)[:500])]
+        if model_out is not None and st.canon:
+            model_out = [st.canon(m) for m in model_out]
+        batch = st.batch_oracle(st.lines, impl_out) if (st.batch_oracle and st.lines) else None
         ndiv = 0
         for k, l in enumerate(st.lines):
             io = impl_out[k]
@@ -62,7 +69,10 @@ def run_streams(res: Result, streams: list[Stream], broken, known_match=None, ma
                 ndiv += 1
                 if len(divergences) < 50:
                     divergences.append((st, l, model_out[k], io))
-            if st.oracle:
+            if batch is not None:
+                if batch[k]:
+                    failures.append((st, l, io, batch[k]))
+            elif st.oracle:
                 why = st.oracle(l, io)
                 if why:
                     failures.append((st, l, io, why))
@@ -98,10 +108,11 @@ def run_streams(res: Result, streams: list[Stream], broken, known_match=None, ma
         if divergences:
             st, l, mo, io = divergences[0]
             def still(c):
-                return run_model([c])[0] != st.impl(c)
+                m = run_model([c])[0]
+                return (st.canon(m) if st.canon else m) != st.impl(c)
             small = _shrink(st, l, still) if model_ok else l
             rep.update({"stream": st.name, "line": small, "original_line": l,
-                        "model_output": run_model([small])[0] if model_ok else mo,
+                        "model_output": (lambda m: st.canon(m) if st.canon else m)(run_model([small])[0]) if model_ok else mo,
                         "implementation_output": st.impl(small),
                         "divergent_cases": len(divergences),
                         "searched": f"{res.cov['evaluations']} cases evaluated by the oracle on the implementation without a property failure"})
